@@ -191,11 +191,40 @@ func (h *HistGen) Leaf() J {
 
 // sameFieldPair: two comparisons on one field whose ranges overlap or nest (x > a AND x >= b ...)
 func (h *HistGen) sameFieldPair() J {
+	// two (sometimes three) constraints on ONE field, joined by and / or: often with the SAME literal and different
+	// inclusivity (f==5 or f>5, f<5 or f==5, f>7 or f>=7), sometimes with nil as one of the literals (f<5 and f==nil)
 	f := hx(h.field())
-	ops := []string{"gt", "ge", "lt", "le", "eq"}
-	a := J{"cmp": []interface{}{ops[h.G.pick(5)], f, J{"lit": encValue(h.val())}}}
-	b := J{"cmp": []interface{}{ops[h.G.pick(5)], f, J{"lit": encValue(h.val())}}}
-	return J{"and": []interface{}{a, b}}
+	ops := []string{"gt", "ge", "lt", "le", "eq", "ne"}
+	va := h.val()
+	vb := h.val()
+	switch h.G.pick(5) {
+	case 0, 1:
+		vb = va
+	case 2:
+		if h.G.pick(2) == 0 {
+			va = nil
+		} else {
+			vb = nil
+		}
+	}
+	mk := func(op string, v interface{}) J {
+		if op == "ne" {
+			return J{"not": J{"cmp": []interface{}{"eq", f, J{"lit": encValue(v)}}}}
+		}
+		return J{"cmp": []interface{}{op, f, J{"lit": encValue(v)}}}
+	}
+	a := mk(ops[h.G.pick(6)], va)
+	b := mk(ops[h.G.pick(6)], vb)
+	conn := []string{"and", "or"}
+	pair := J{conn[h.G.pick(2)]: []interface{}{a, b}}
+	if h.G.pick(4) == 0 {
+		third := mk(ops[h.G.pick(6)], h.val())
+		if h.G.pick(2) == 0 {
+			return J{conn[h.G.pick(2)]: []interface{}{third, pair}}
+		}
+		return J{conn[h.G.pick(2)]: []interface{}{pair, third}}
+	}
+	return pair
 }
 
 func (h *HistGen) Crit(depth int) J {
@@ -291,7 +320,10 @@ func (h *HistGen) upd0() J {
 	case 1:
 		return J{"copy": []interface{}{hx(h.field()), hx([]string{"x", "y", "xy", "n.a", "w"}[h.G.pick(5)])}}
 	case 2:
-		// tries to rewrite _id
+		// tries to rewrite _id - as a whole, or through a dotted path into it (which replaces the id by an object)
+		if h.G.pick(3) == 0 {
+			return J{"setAll": []interface{}{[]interface{}{hx([]string{"_id.x", "_id.a.b", "_id."}[h.G.pick(3)]), encValue(h.val())}}}
+		}
 		return J{"setAll": []interface{}{[]interface{}{hx("_id"), encValue(h.someId())}}}
 	}
 	if h.G.pick(8) == 0 {
